@@ -1,6 +1,10 @@
 package props
 
 import (
+	"bytes"
+	"log"
+
+	"github.com/robfig/soy/soyhtml"
 	"fmt"
 	"os"
 	"path/filepath"
@@ -38,7 +42,7 @@ var c15Wide = append(append([]string{}, c15Alphabet...), "‰∏ä", "‰∏ç", "‰∏â", "‚
 	// 0xE9, 0xFF, 0xA0 (a no-break space in Latin-1), 0x85, a truncated sequence
 	"\uf7e9", "\uf7ff", "\uf7a0", "\uf785", "\uf7e2\uf782",
 	// pieces of markup, in either case
-	"A", "<A>", "</A>", "<Br/>", "<a HREF=\"u\">", "<TD", "<Img src=x>")
+	"%", "%d", "100%", "%s %v", "A", "<A>", "</A>", "<Br/>", "<a HREF=\"u\">", "<TD", "<Img src=x>")
 
 // c15Forms: a block whose body ends in a comment; mid is the closing or continuing tag behind the comment,
 // close what follows the text behind it. innerShown: the body text before the comment is rendered.
@@ -77,6 +81,8 @@ var c15Neighbors = []struct{ name, before, after, outBefore, outAfter string }{
 	// (the text stands in a content block, between two content blocks of its own)
 	{"between-inner-blocks", "{let $o}{let $i}I{/let}", "{let $j}J{/let}{$i}{$j}{/let}{$o|noAutoescape}", "", "IJ"},
 	{"between-content-params", "{let $o}{call .g}{param x}1{/param}{param y}2{/param}{/call}", "{call .f}{param x}3{/param}{/call}{/let}{$o|noAutoescape}", "G12", "F3"},
+	// (the text of a {log} block goes to the application's logger, the same characters)
+	{"log-block", "{log}", "{/log}", "", ""},
 	// (the text of a message: what looks like an HTML tag in it is a placeholder of the message, and still text)
 	{"msg", "{msg desc=\"d\"}", "{/msg}", "", ""},
 	{"msg-after-print", "{msg desc=\"d\"}{$x}", "{$x}{/msg}", "X", "X"},
@@ -186,7 +192,7 @@ func checkC15(c C15Case) Verdict {
 	defer func() { c15Header = false }()
 	nb := c15Neighbors[c.Neighbor%len(c15Neighbors)]
 	if c.Level != "L1" {
-		nb = c15Neighbors[c.Neighbor%(len(c15Neighbors)-2)] // (the two message neighbours take text only)
+		nb = c15Neighbors[c.Neighbor%(len(c15Neighbors)-3)] // (the log block and the two message neighbours take text only)
 	}
 	switch c.Level {
 	case "L1g":
@@ -219,6 +225,28 @@ func checkC15(c C15Case) Verdict {
 		}
 		return ok(nt, "L1g:"+gp.name)
 	case "L1":
+		if nb.name == "log-block" {
+			nt := false
+			for _, r := range c.Runs {
+				var logged bytes.Buffer
+				saved := soyhtml.Logger
+				soyhtml.Logger = log.New(&logged, "", 0)
+				outs, err := renderBodiesVia([]string{nb.before + r + nb.after}, false)
+				soyhtml.Logger = saved
+				if err != nil {
+					return bad(true, "text run %q in a {log} block is rejected: %v", r, err)
+				}
+				want := ref.NormalizeText(r)
+				if !strings.HasSuffix(want, "\n") {
+					want += "\n" // (the logger ends each entry with a line break)
+				}
+				if outs[0] != "" || logged.String() != want {
+					return bad(true, "text run %q in a {log} block: the template writes %q and the logger is given %q; the line-joining rule gives %q for the logger and nothing for the output", r, outs[0], logged.String(), want)
+				}
+				nt = nt || strings.ContainsAny(r, "\r\n%")
+			}
+			return ok(nt, "L1:"+nb.name)
+		}
 		bodies := make([]string, len(c.Runs))
 		for i, r := range c.Runs {
 			bodies[i] = nb.before + r + nb.after
